@@ -188,7 +188,9 @@ def positions_clause(rep, cov, tier):
         if rec.get("R") != "unit":
             continue
         text, _ = unitgen.render(rec["unit"])
-        for _ in range(1 if tier == "quick" else 4):
+        # at least two layouts of every unit, one after the other in the same session: an edit that changes the layout only
+        # (white space, comments) moves every position although the declarations stay what they were
+        for _ in range(2 if tier == "quick" else 4):
             docs.append((rec["edits"], relayout(text, rng)))
     bs = 12
     batches = [docs[i:i + bs] for i in range(0, len(docs), bs)]
